@@ -150,28 +150,39 @@ def check_activity_guards(ctx, rule="CMP-activity"):
               f"skip <=> not(b <= t < e) for all {len(rows)} orderings incl. None (tests: {[short(g.test, 60) for g in tests]})",
               f"the {what} activity guard disagrees with begin-inclusive/end-exclusive activity: "
               + "; ".join(f"b={b} e={e} t=10: skips={got}, TTML says inactive={want}" for b, e, got, want in wrong[:3]))
-  # from_model content-interval short cut
-  ci_tests = [g for g in own_nodes(fm.node) if isinstance(g, ast.If) and ("content_interval[0]" in unparse(g.test) or "content_interval[1]" in unparse(g.test)) and tparam_fm in names_in(g.test) and exits_after(g)]
+  # from_model content-interval short cut (the interval is read as <x>.content_interval or through a local that holds it)
+  ci_alias = {st.targets[0].id for st in own_nodes(fm.node) if isinstance(st, ast.Assign) and len(st.targets) == 1 and isinstance(st.targets[0], ast.Name)
+              and unparse(st.value).endswith("content_interval")}
+
+  def ci_subscripts(test):
+    return [a for a in ast.walk(test) if isinstance(a, ast.Subscript) and isinstance(a.slice, ast.Constant) and a.slice.value in (0, 1)
+            and (unparse(a.value).endswith("content_interval") or (isinstance(a.value, ast.Name) and a.value.id in ci_alias))]
+  ci_tests = [g for g in own_nodes(fm.node) if isinstance(g, ast.If) and ci_subscripts(g.test) and tparam_fm in names_in(g.test) and exits_after(g)]
   n += 1
   if not ci_tests:
     ctx.ok(rule, f"{fm.qualname}|content-interval short cut absent", ctx.where(fm.module, fm.node), "no content-interval short cut")
   else:
     g = ci_tests[0]
-    recv = None
-    for gg in ci_tests:
-      for a in ast.walk(gg.test):
-        if isinstance(a, ast.Subscript) and unparse(a).endswith(("content_interval[0]", "content_interval[1]")):
-          recv = unparse(a.value)
-    tests_ = [substitute(gg.test, {f"{recv}[0]": "__b", f"{recv}[1]": "__e"}) for gg in ci_tests]
+    recv = unparse(ci_subscripts(g.test)[0].value)
+    # `<interval> is not None` inside the test is the presence guard: the comparison is evaluated for a present interval
+    tests_ = [substitute(gg.test, {f"{recv}[0]": "__b", f"{recv}[1]": "__e", f"{recv} is not None": "True", f"{recv} is None": "False"}) for gg in ci_tests]
     rows = eval_skip_tests(ix, fm, tests_, "__b", "__e", tparam_fm, b_may_be_none=False)
     wrong = [(b, e, got, want) for (b, e, got, want) in rows if got != want]
     ctx.check(not wrong, rule, f"{fm.qualname}|content-interval short cut", ctx.where(fm.module, g),
               f"skip <=> t outside [b, e) for all {len(rows)} orderings",
               "the content-interval short cut skips documents at times inside their content interval (or not outside): "
               + "; ".join(f"b={b} e={e} t=10: skips={got}, outside={want}" for b, e, got, want in wrong[:3]))
-    # it must be guarded by `content_interval is not None`
-    par = parent(g)
-    ctx.check(isinstance(par, ast.If) and "content_interval is not None" in unparse(par.test), rule, f"{fm.qualname}|short cut only with a content interval",
+    # it must be guarded by `content_interval is not None`: an enclosing if, or the first operand of the same `and`
+    from . import match as _m
+
+    def present(t):
+      return _m.is_none_test(t, lambda x: unparse(x) == recv) is False
+    guarded = True
+    for gg in ci_tests:
+      outer = [t for t, pol in _m.enclosing_conditions(gg, fm.node) if pol and any(present(v) for v in ([t] + (t.values if isinstance(t, ast.BoolOp) and isinstance(t.op, ast.And) else [])))]
+      conj = isinstance(gg.test, ast.BoolOp) and isinstance(gg.test.op, ast.And) and present(gg.test.values[0])
+      guarded = guarded and (bool(outer) or conj)
+    ctx.check(guarded, rule, f"{fm.qualname}|short cut only with a content interval",
               ctx.where(fm.module, g), "guarded by `content_interval is not None`", "the content-interval short cut is no longer guarded by `content_interval is not None`")
     n += 1
   return n
@@ -349,59 +360,88 @@ def prune_oracle(is_region, assoc_is_selected, has_children, assoc_is_none):
 
 
 def check_prune_predicate(ctx, f: FuncInfo, has_region_atom: bool, rule="CMP-prune"):
+  from . import match as _m
+  from ..consteval import FuncEval, Raised, _CallingConstEval
   ix = ctx.ix
   ctx.unit(f.module)
-  ce = ConstEval(ix, symbolic_ok=False)
-  # association: element.get_region() if element.get_region() is not None else inherited_region
-  assoc = None
+  # the association variable: the local that first receives <element>.get_region()
+  first = None
   for st in own_nodes(f.node):
-    if isinstance(st, ast.Assign) and isinstance(st.targets[0], ast.Name) and isinstance(st.value, ast.IfExp) and "get_region()" in unparse(st.value.body):
-      assoc = st
-  if assoc is None:
+    if isinstance(st, ast.Assign) and len(st.targets) == 1 and isinstance(st.targets[0], ast.Name) and "get_region()" in unparse(st.value):
+      if first is None or st.lineno < first.lineno:
+        first = st
+  if first is None:
     raise AnalysisError(f"{f.qualname}: associated-region assignment not found")
-  v = assoc.value
-  inh = unparse(v.orelse)
-  ok = unparse(v.test).replace(" ", "") == unparse(v.body).replace(" ", "") + "isnotNone" and inh in f.params
-  ctx.check(ok, rule, f"{f.qualname}|association = own region else inherited", ctx.where(f.module, assoc), f"`{short(v)}`",
-            f"the associated region must be the element's own region if it has one, else the inherited region parameter; found `{short(v)}`")
-  av = assoc.targets[0].id
-  # the pruning test: an If returning None whose test mentions the association variable and `is not <selected>`
+  av = first.targets[0].id
+  own_txt = next(unparse(c) for c in ast.walk(first.value) if isinstance(c, ast.Call) and isinstance(c.func, ast.Attribute) and c.func.attr == "get_region")
+  # the pruning test: an If returning None whose test mentions the association variable and a region parameter / has_children
   guards = [g for g in own_nodes(f.node) if isinstance(g, ast.If) and av in names_in(g.test) and isinstance(g.body[-1], ast.Return)
             and (g.body[-1].value is None or (isinstance(g.body[-1].value, ast.Constant) and g.body[-1].value.value is None))
-            and ("has_children" in unparse(g.test) or " is not " in unparse(g.test) and any(p_ in names_in(g.test) for p_ in f.params if "region" in p_))]
+            and ("has_children" in unparse(g.test) or any(p_ in names_in(g.test) for p_ in f.params if "region" in p_))]
   if len(guards) != 1:
     raise AnalysisError(f"{f.qualname}: expected one region-pruning guard, found {len(guards)}")
   g = guards[0]
+  # association = own region if there is one, else the inherited region parameter: the statements that write the
+  # variable before the guard are evaluated for own / inherited in {absent, present}
+  blk = parent(first)
+  stmts_all = getattr(blk, "body", [])
+  writers = [st for st in stmts_all if st.lineno < g.lineno and any(isinstance(n, ast.Name) and n.id == av and isinstance(n.ctx, ast.Store) for n in ast.walk(st))]
+  inh_params = [p_ for p_ in f.params if p_ in {n.id for st in writers for n in ast.walk(st) if isinstance(n, ast.Name)} and "region" in p_]
+  ok = len(inh_params) == 1
+  detail = ""
+  if ok:
+    inh = inh_params[0]
+    fe = FuncEval(ix)
+    stmts = _m.replace_exprs(writers, {own_txt: "__own"})
+    try:
+      for o, i_ in itertools.product((None, "OWN"), (None, "INH")):
+        env = {"__own": o, inh: i_}
+        fe._block(_CallingConstEval(ix, fe, f, 0, None), f, stmts, env)
+        want = o if o is not None else i_
+        if env.get(av) != want:
+          ok = False
+          detail = f"own={o}, inherited={i_}: associated region {env.get(av)}, expected {want}"
+    except (NotConst, Raised) as e:
+      raise AnalysisError(f"{f.qualname}: the association statements could not be evaluated ({e})")
+  ctx.check(ok, rule, f"{f.qualname}|association = own region else inherited", ctx.where(f.module, first), f"`{short(first.value)}`",
+            f"the associated region must be the element's own region if it has one, else the inherited region parameter ({detail or 'no single inherited-region parameter is read'})")
+  # the whole condition under which the element is pruned: the guard's own test and the tests of the ifs around it
+  outer = [(t, pol) for t, pol in _m.enclosing_conditions(g, f.node) if av in names_in(t) or "has_children" in unparse(t)]
+  all_tests = [t for t, _ in outer] + [g.test]
   sel = None
-  for c in ast.walk(g.test):
-    if isinstance(c, ast.Compare) and isinstance(c.ops[0], (ast.Is, ast.IsNot)) and unparse(c.left) == av and isinstance(c.comparators[0], ast.Name):
-      sel = c.comparators[0].id
-  if sel is None or sel not in f.params:
+  for c in (x for t in all_tests for x in ast.walk(t)):
+    if isinstance(c, ast.Compare) and len(c.ops) == 1 and isinstance(c.ops[0], (ast.Is, ast.IsNot, ast.Eq, ast.NotEq)):
+      for a, b in ((c.left, c.comparators[0]), (c.comparators[0], c.left)):
+        if unparse(a) == av and isinstance(b, ast.Name) and b.id in f.params:
+          sel = b.id
+  if sel is None:
     raise AnalysisError(f"{f.qualname}: the pruning guard does not compare the associated region with a selected-region parameter")
   elem = f.params[-1]
-  for c in ast.walk(g.test):
+  for c in (x for t in all_tests for x in ast.walk(t)):
     if isinstance(c, ast.Call) and isinstance(c.func, ast.Attribute) and c.func.attr == "has_children":
       elem = unparse(c.func.value)
-  mapping = {
-    f"{av} is not {sel}": "__notS", f"{av} is {sel}": "__S",
-    f"{elem}.has_children()": "__C",
-    f"{av} is not None": "__notN", f"{av} is None": "__N",
-  }
-  for c in ast.walk(g.test):
-    if isinstance(c, ast.Call) and isinstance(c.func, ast.Name) and c.func.id == "isinstance" and unparse(c.args[0]) == elem and unparse(c.args[1]).endswith("Region"):
-      mapping[unparse(c)] = "__R"
-  test = substitute(g.test, mapping)
-  leftover = names_in(test) - {"__notS", "__S", "__C", "__notN", "__N", "__R"}
-  if leftover:
-    raise AnalysisError(f"{f.qualname}: pruning test has atoms outside the expected ones: {sorted(leftover)} in `{short(g.test)}`")
+
+  def leaf(e):
+    r = _m.relation(e, lambda x: unparse(x) == av, lambda x: isinstance(x, ast.Name) and x.id == sel)
+    if r in ("is", "==", "is not", "!="):
+      return ("S", r in ("is", "=="))
+    nt = _m.is_none_test(e, lambda x: unparse(x) == av)
+    if nt is not None:
+      return ("N", nt)
+    if unparse(e) == f"{elem}.has_children()":
+      return ("C", True)
+    if isinstance(e, ast.Call) and isinstance(e.func, ast.Name) and e.func.id == "isinstance" and len(e.args) == 2 and unparse(e.args[0]) == elem and unparse(e.args[1]).endswith("Region"):
+      return ("R", True)
+    return None
   wrong = []
   for R, S, C, N in itertools.product([False, True], repeat=4):
     if not has_region_atom and R:
       continue
-    if S and N and False:
-      pass
-    env = {"__R": R, "__S": S, "__notS": not S, "__C": C, "__N": N, "__notN": not N}
-    got = bool(ce.ev(f.module, test, None, env))
+    env = {"R": R, "S": S, "C": C, "N": N}
+    try:
+      got = all(_m.eval_bool(t, leaf, lambda a: env[a]) == pol for t, pol in outer) and _m.eval_bool(g.test, leaf, lambda a: env[a])
+    except ValueError as e:
+      raise AnalysisError(f"{f.qualname}: pruning test has a part outside the expected atoms: `{e}`")
     want = prune_oracle(R, S, C, N)
     if got != want:
       wrong.append((R, S, C, N, got, want))
@@ -517,7 +557,30 @@ def check_style_order(ctx, rule="ORD-style"):
   for name, m in sorted(overrides.items()):
     t = unparse(m.node)
     if name == "TextDecoration":
-      ok = all(f"spec_value.{k} if spec_value.{k} is not None else parent_value.{k}" in t for k in ("underline", "line_through", "overline"))
+      # roles: the value read from the element (specified) and from the parent; every component of the
+      # merged value must be `specified.k` when that is not None and `parent.k` otherwise, however the
+      # conditional expression is spelled
+      from . import match as _match
+      roles = {}
+      for st in own_nodes(m.node):
+        if isinstance(st, (ast.Assign, ast.AnnAssign)) and isinstance(st.value, ast.Call) and isinstance(st.value.func, ast.Attribute) and st.value.func.attr == "get_style" \
+            and isinstance(st.value.func.value, ast.Name) and st.value.func.value.id in m.params[1:3]:
+          tgt = st.targets[0] if isinstance(st, ast.Assign) else st.target
+          if isinstance(tgt, ast.Name):
+            roles["parent" if st.value.func.value.id == m.params[1] else "spec"] = tgt.id
+      ctor = [c for c in own_nodes(m.node) if isinstance(c, ast.Call) and unparse(c.func).endswith("TextDecorationType")]
+      ok = len(roles) == 2 and len(ctor) == 1
+      if ok:
+        kws = {k.arg: k.value for k in ctor[0].keywords}
+        for k in ("underline", "line_through", "overline"):
+          e = kws.get(k)
+          sv, pv = f"{roles['spec']}.{k}", f"{roles['parent']}.{k}"
+          isnone = _match.is_none_test(e.test, lambda x: unparse(x) == sv) if isinstance(e, ast.IfExp) else None
+          if isnone is None:
+            ok = False
+          else:
+            when_set, when_none = (e.orelse, e.body) if isnone else (e.body, e.orelse)
+            ok = ok and unparse(when_set) == sv and unparse(when_none) == pv
       ctx.check(ok, "PRI-style", "ttconv.isd:StyleProcessors.TextDecoration.inherit|per-component merge", ctx.where(m.module, m.node),
                 "each component: specified if not None else the parent's", "text decoration must merge per component (specified component wins, None inherits)")
     else:
@@ -626,6 +689,16 @@ def axis_of(f: FuncInfo, e, depth=0):
   if isinstance(e, ast.Name):
     defs_ = [st for st in own_nodes(f.node) if isinstance(st, (ast.Assign, ast.AnnAssign))
              and any(isinstance(x, ast.Name) and x.id == e.id for x in (st.targets if isinstance(st, ast.Assign) else [st.target]))]
+    # `if T: v = a  else: v = b` is the statement form of `v = a if T else b`
+    if len(defs_) == 2 and all(st.value is not None for st in defs_):
+      pa, pb = parent(defs_[0]), parent(defs_[1])
+      if pa is pb and isinstance(pa, ast.If):
+        in_body = [any(x is st for x in pa.body) for st in defs_]
+        in_else = [any(x is st for x in pa.orelse) for st in defs_]
+        if in_body[0] and in_else[1]:
+          return ("cond", unparse(pa.test), axis_of(f, defs_[0].value, depth + 1), axis_of(f, defs_[1].value, depth + 1))
+        if in_body[1] and in_else[0]:
+          return ("cond", unparse(pa.test), axis_of(f, defs_[1].value, depth + 1), axis_of(f, defs_[0].value, depth + 1))
     axes = [axis_of(f, st.value, depth + 1) for st in defs_ if st.value is not None]
     if axes and all(a == axes[0] for a in axes):
       return axes[0]
